@@ -5,6 +5,8 @@ from ..sym import T
 from ..harness import save_cex, match_known
 from ..scenario import Scenario
 
+PROBABILISTIC = ('pay-with-conflicting-info', 'pay-after-rejection', 'different-resolutions')
+
 class ScenarioWithPc(Scenario):
     """Scenario whose symbolic inputs come with domain constraints prepared by the property."""
     def __init__(self, c, cfg, monitors, pc):
@@ -19,30 +21,52 @@ def native_script(m, sc, v, trail=None):
     from . import scen_native
     return scen_native.script_from_state(m, sc, v, trail)
 
+def _simplicity(item):
+    v, trail, m = item
+    tl = trail.to_list()
+    fires = sum(1 for t in tl if t['step'].startswith('fire '))
+    return (fires, len(tl))
+
 def report(rep, pid, name, ex, sc):
-    for v, trail, m in ex.violations:
+    """Several violating schedules may have been collected: the ones that are easiest to drive natively
+    (no timer races, short) are tried first; the first natively reproduced one is reported."""
+    if not ex.violations:
+        return
+    from . import scen_native
+    tried = []
+    for v, trail, m in sorted(ex.violations, key=_simplicity)[:10]:
         try:
             script = native_script(m, sc, v, trail)
-            nat = replay.run('manager', script, timeout=300)
-            from . import scen_native
-            reproduced, why = scen_native.judge(pid, v, script, nat)
+            reproduced, why, nat = False, '', None
+            for attempt in range(1 if v.kind not in PROBABILISTIC else 16):
+                nat = replay.run('manager', script, timeout=300)
+                reproduced, why = scen_native.judge(pid, v, script, nat)
+                if reproduced:
+                    why += ' (native attempt %d)' % (attempt + 1)
+                    break
         except Exception as e:      # replay machinery problem: never report as a violation
             script, nat, reproduced, why = None, {'error': repr(e)}, False, 'replay failed: %r' % (e,)
         cex = {'property': pid, 'harness': name, 'kind': v.kind, 'detail': v.detail, 'role': v.role, 'cause': v.cause,
                'trail': trail.to_list(), 'events': [list(map(str, e)) for e in m.events[-80:]],
                'script': script, 'native': nat, 'replay_kind': 'manager', 'judgement': why}
         path = save_cex(pid, cex)
+        tried.append((v, path, why))
         if reproduced:
             k = match_known(pid, v.role, v.cause)
             if k:
                 msg = '%s/%s %s' % (v.role, v.cause, k.get('text', ''))
                 if msg not in rep.known:
                     rep.known.append(msg)
-            else:
-                rep.violations.append({'replay': path, 'role': v.role,
-                                       'summary': '%s: %s %s' % (name, v.kind, json.dumps(v.detail, default=str)[:400])})
-        else:
-            rep.inconclusive.append('%s: counterexample %s did not reproduce natively (%s): %s' % (name, v.kind, why, path))
+                continue
+            rep.violations.append({'replay': path, 'role': v.role,
+                                   'summary': '%s: %s %s | native: %s' % (name, v.kind, json.dumps(v.detail, default=str)[:300], why)})
+            return
+    if not rep.known or any(not match_known(pid, v.role, v.cause) for v, p, w in tried):
+        unexplained = [(v, p, w) for v, p, w in tried if not match_known(pid, v.role, v.cause)]
+        if unexplained:
+            v, path, why = unexplained[0]
+            rep.inconclusive.append('%s: %d counterexample(s) of kind %s found symbolically, none reproduced natively (%s): %s'
+                                    % (name, len(unexplained), v.kind, why, path))
 
 def replay_cex(pid, path):
     from . import scen_native
@@ -59,3 +83,21 @@ def replay_cex(pid, path):
         print('VIOLATION property=%s replay=%s' % (pid, path))
         return 1
     return 0
+
+def run_configs(rep, pid, c, configs, default_budget=100):
+    """configs: [(name, cfg, pc, monitors, kwargs)].  Stops at the first config with a reportable result."""
+    from .c20 import run_explorer
+    for name, cfg, pc, monitors, kw in configs:
+        sc = ScenarioWithPc(c, cfg, monitors, pc)
+        for k, v in kw.pop('scenario_attrs', {}).items():
+            setattr(sc, k, v)
+        kw.setdefault('max_states', 300000)
+        kw.setdefault('max_depth', 800)
+        kw.setdefault('time_budget', default_budget)
+        ex = run_explorer(rep, c, sc, name, **kw)
+        report(rep, pid, name, ex, sc)
+        if rep.violations:
+            break
+
+def be_bytes(v, n=8):
+    return list(int(v).to_bytes(n, 'big'))
